@@ -563,7 +563,10 @@ func TestModel(t *testing.T) {
 				if p.node == w.b && kit.IsKnown("C18", sigRemoteLoss) {
 					counted := false
 					for _, x := range w.events {
-						if _, has := x.subs[c]; has && x.registered && x.notify {
+						// (without notifications the stale subscription still matters: the owner node keeps
+						// sending the event to the dead subscriber's node, where a later subscriber can
+						// pick up a publication that was made before it subscribed)
+						if _, has := x.subs[c]; has && x.registered {
 							counted = true
 						}
 					}
